@@ -310,6 +310,7 @@ package jsonpatch
 //@   bind v = value#1.0
 //@   let neg = SupportNegativeIndices
 //@   ensures[C18] missing-parent: reached(findObject#1) && con == nil ==> isMissing(err)
+//@   ensures[C18] success-means-stored: err == nil ==> reached(add#1)
 //@   ensures[C18] object-member-set: reached(findObject#1) && con != nil && rIsDoc(con) && *rDocOf(con) != nil ==> err == nil && key in *rDocOf(con) && (*rDocOf(con))[key] == v
 //@   ensures[C18] array-ok-iff: reached(findObject#1) && con != nil && rIsAry(con) ==> ((err == nil) <==> idxAddOK(key, at(findObject#1, len(*rAryOf(con))), neg))
 //@   ensures[C18] array-inserted: reached(findObject#1) && con != nil && rIsAry(con) && err == nil ==> len(*rAryOf(con)) == at(findObject#1, len(*rAryOf(con))) + 1 && (*rAryOf(con))[idxAddVal(key, at(findObject#1, len(*rAryOf(con))))] == v
@@ -325,6 +326,7 @@ package jsonpatch
 //@   bind key = findObject#1.1
 //@   let neg = SupportNegativeIndices
 //@   ensures[C18] missing-parent: reached(findObject#1) && con == nil ==> isMissing(err)
+//@   ensures[C18] success-means-removed: err == nil ==> reached(remove#1)
 //@   ensures[C18] object-member-removed: reached(findObject#1) && con != nil && rIsDoc(con) && at(findObject#1, key in *rDocOf(con)) ==> err == nil && !(key in *rDocOf(con))
 //@   ensures[C18] object-member-absent: reached(findObject#1) && con != nil && rIsDoc(con) && !at(findObject#1, key in *rDocOf(con)) ==> err != nil && isMissing(err)
 //@   ensures[C18] array-element-removed: reached(findObject#1) && con != nil && rIsAry(con) && idxRefOK(key, at(findObject#1, len(*rAryOf(con))), neg) ==> err == nil && len(*rAryOf(con)) == at(findObject#1, len(*rAryOf(con))) - 1
@@ -341,6 +343,7 @@ package jsonpatch
 //@   bind v = value#2.0
 //@   let neg = SupportNegativeIndices
 //@   ensures[C18] missing-parent: reached(findObject#1) && con == nil ==> isMissing(err)
+//@   ensures[C18] success-means-replaced: err == nil ==> reached(set#1) || reached(value#1)
 //@   ensures[C18] bad-index: reached(findObject#1) && con != nil && rIsAry(con) && !idxRefOK(key, at(findObject#1, len(*rAryOf(con))), neg) ==> err != nil
 //@   ensures[C18] object-member-replaced: reached(findObject#1) && con != nil && rIsDoc(con) && at(findObject#1, key in *rDocOf(con)) ==> err == nil && (*rDocOf(con))[key] == v
 //@   ensures[C18] array-element-replaced: reached(findObject#1) && con != nil && rIsAry(con) && idxRefOK(key, at(findObject#1, len(*rAryOf(con))), neg) ==> err == nil && len(*rAryOf(con)) == at(findObject#1, len(*rAryOf(con))) && (*rAryOf(con))[idxRefVal(key, len(*rAryOf(con)))] == v
@@ -358,6 +361,7 @@ package jsonpatch
 //@   let neg = SupportNegativeIndices
 //@   ensures[C18] missing-parent: reached(findObject#1) && con == nil ==> isMissing(err)
 //@   ensures[C18] missing-destination: reached(findObject#2) && dst == nil ==> isMissing(err)
+//@   ensures[C18] success-means-moved: err == nil ==> reached(add#1)
 //@   ensures[C18] missing-source: reached(findObject#1) && con != nil && !at(findObject#1, rConHas(con, key, neg)) ==> err != nil
 //@   ensures[C18] removed-before-resolving-object: reached(findObject#2) && rIsDoc(con) ==> pre(findObject#2, !(key in *rDocOf(con)))
 //@   ensures[C18] removed-before-resolving-array: reached(findObject#2) && rIsAry(con) ==> pre(findObject#2, len(*rAryOf(con))) == at(findObject#1, len(*rAryOf(con))) - 1
@@ -374,12 +378,14 @@ package jsonpatch
 //@   bind key = findObject#1.1
 //@   let neg = SupportNegativeIndices
 //@   ensures[C18] missing-parent: reached(findObject#1) && con == nil ==> isMissing(err) && !isTestFailed(err)
+//@   ensures[C18] success-means-compared: err == nil ==> reached(equal#1) || reached(equal#2) || reached(value#2)
 //@   ensures[C18] bad-index-is-not-test-failed: reached(findObject#1) && con != nil && rIsAry(con) && !at(findObject#1, rConHas(con, key, neg)) ==> err != nil && !isTestFailed(err)
 //@   ensures[C18] decoded-null-vs-value: reached(findObject#1) && con != nil && at(findObject#1, rConHas(con, key, neg) && rConAt(con, key) == nil) ==> ((err == nil) <==> (!("value" in op) || op["value"] == nil))
 //@   ensures[C18] mismatch-is-test-failed: reached(findObject#1) && con != nil && at(findObject#1, rConHas(con, key, neg)) && err != nil ==> isTestFailed(err)
 
 //@ func (Patch).copy
 //@   callees[C18] From, findObject, get, Path, deepCopy, NewAccumulatedCopySizeError, add
+//@   ensures[C18] success-means-copied: err == nil ==> reached(add#1)
 //@   requires args: doc != nil && accumulatedCopySize != nil && rConOK(*doc)
 //@   requires op: rOpOK(op)
 //@   requires total: *accumulatedCopySize >= 0
@@ -422,6 +428,12 @@ package jsonpatch
 //@   callsite[C18] move#1 move-operations-are-applied-by-move-in-patch-order: rOpKind(op) == "move" && arg_op == op && op == p[rangeindex + 1]
 //@   callsite[C18] test#1 test-operations-are-applied-by-test-in-patch-order: rOpKind(op) == "test" && arg_op == op && op == p[rangeindex + 1]
 //@   callsite[C18] copy#1 copy-operations-are-applied-by-copy-in-patch-order: rOpKind(op) == "copy" && arg_op == op && op == p[rangeindex + 1]
+//@   covers[C18] add#1 no-add-operation-is-skipped: rOpKind(op) == "add"
+//@   covers[C18] remove#1 no-remove-operation-is-skipped: rOpKind(op) == "remove"
+//@   covers[C18] replace#1 no-replace-operation-is-skipped: rOpKind(op) == "replace"
+//@   covers[C18] move#1 no-move-operation-is-skipped: rOpKind(op) == "move"
+//@   covers[C18] test#1 no-test-operation-is-skipped: rOpKind(op) == "test"
+//@   covers[C18] copy#1 no-copy-operation-is-skipped: rOpKind(op) == "copy"
 //@   modifies region(lazyNode.which), region(lazyNode.doc), region(lazyNode.ary), region(lazyNode.raw), region(elem *lazyNode), region(map map[string]*lazyNode), region(cell int64), region(cell container), region(cell any), ghost(BufContent)
 //@   requires patch: rPatchOK(p)
 //@   ensures[C18] nothing-with-error: err != nil ==> result.0 == nil
@@ -476,6 +488,9 @@ package jsonpatch
 //@   bind e2 = intoDoc#2.1
 //@   ensures[C19] a-non-object-is-replaced-by-the-patch: (reached(intoDoc#1) && e1 != nil) || (reached(intoDoc#2) && e2 != nil) ==> result == patch
 //@   ensures[C19] two-objects-are-merged-in-place: reached(intoDoc#2) && e2 == nil ==> result == cur && reached(mergeDocs#1)
+//@   ensures[C19] the-current-value-is-kept-only-after-merging-into-it: result == cur && cur != patch ==> reached(mergeDocs#1)
+//@   callsite[C19] intoDoc#1 the-current-value-is-examined-first: arg_n == cur
+//@   callsite[C19] intoDoc#2 then-the-patch: arg_n == patch
 //@   callees[C19] intoDoc, pruneNulls, mergeDocs
 //@   callsite[C19] pruneNulls#1 prunes-only-a-patch-that-replaces-a-non-object: err != nil
 //@   requires nodes: cur != nil && patch != nil && rNodeOK(cur) && rNodeOK(patch) && rTextOK(cur) && rTextOK(patch)
